@@ -47,6 +47,15 @@ def gen_builtins(tier, rng):
               'format("{:99999999999999999999}", 1)', 'format("{99999999999999999999}", 1)', 'join([1])', 'sort([1, "a"])', 'sort([[1], [2]])', 'sort([float("nan"), 1.0, 0.5])',
               'sort([map {}, map {}])', 'read(stdin, -1)', 'read(stdin, 9223372036854775807)', 'pcap_read_all(pcap_open("@TMP@/in.pcap"), -1)', 'pcap_stream()', 'pcap_stream(1)', 'decode_utf8([byte(255)])']:
         yield mk("edge/%s" % e, "let q = %s;" % e, timeout=10)
+    # sort on arrays long enough for the library sort to notice an inconsistent comparison (it panics from about 20 elements on):
+    # NaN among floats, integers above 2^53 next to floats, values of different kinds, equal values
+    pools = [['float("nan")', "1.0", "0.5", "2.5", "-1.0", "7.0"], ["9007199254740993", "9007199254740992.0", "9007199254740992", "9007199254740994.0", "1", "2.0"],
+             ["1", '"a"', "2.5", "'c'", "true", "null", "[1]"], ["1", "1.0", "1", "2", "2.0", 'float("nan")'], ['"b"', '"a"', '""', '"ab"', "1"]]
+    for k in range(6 if quick else 120):
+        pool = pools[k % len(pools)]
+        n = rng.choice([20, 22, 33, 64] if quick else [20, 21, 22, 31, 33, 50, 64, 200])
+        arr = "[" + ", ".join(rng.choice(pool) for _ in range(n)) + "]"
+        yield mk("sort-long/%d" % k, "let a = %s; let q = sort(a); let w = len(a);" % arr, timeout=10)
 
 
 KINDS = ["1", "(-9223372036854775807 - 1)", "2.5", "0.0", 'float("nan")', "byte(200)", "byte(0)", '"s"', '""', "'c'", "true", "null", "[1]", "[]", "map {1: 2}", "len", "fn() { 1 }", "stdin", "64", "(-1)"]
@@ -127,7 +136,7 @@ def gen_packets(tier, rng):
 
 GROUPS = [
     dict(name="C08/builtins-matrix", clause="no builtin panics or hangs for any arity 0..3 and any argument values (negative counts and precisions, huge values, every kind)",
-         bound="45 builtins x (arity 0, 22/46 boundary arguments, 6/400 argument pairs, 3/60 triples) plus 42 targeted boundary calls", gen=gen_builtins),
+         bound="6/120 sort calls on arrays of 20-200 elements (NaN, integers above 2^53 next to floats, mixed kinds); 45 builtins x (arity 0, 22/46 boundary arguments, 6/400 argument pairs, 3/60 triples) plus 42 targeted boundary calls", gen=gen_builtins),
     dict(name="C08/operators-all-kinds", clause="no operator, index, call, property access or map literal panics for any pair of operand kinds", bound="18 binary operators x 20x20 operand kinds (quick 10% sample), 3 unary, index/call/property/map-key on every kind", gen=gen_operators),
     dict(name="C08/packet-programs", clause="reading, printing, assigning and writing the layers of any frame (truncated or with lying length fields) ends with a result or a reported error",
          bound="150/3000 seeded frames (50% truncated anywhere) x a filter program (layer chain, $n, Display of $n, one assignment, write) and a file program (pcap_read_all, named layers, pcap_write, write)", gen=gen_packets),
